@@ -59,6 +59,21 @@ def run(chk):
         for c in sv.crash_cases(long_prog, wd, order=order, seed=n_ev,
                                 ks=lambda kinds: [i + 1 for i, k in enumerate(kinds) if k == "add" and i + 1 > 101][:chk.pick(2, 8)]):
             items.append(("resumable(2,%d)/%s/k=%d" % (n_ev, order, c["k"]), long_prog, (), [c], [["crash_after_tick", c["k"]]]))
+    # two process stops in a row (the second process has resumed the run and persisted ticks of its own)
+    wd = chk.work / "c13_double"
+    wd.mkdir(parents=True, exist_ok=True)
+    dprog = sc.resumable(2, 2, 3, 1)
+    for c in sv.double_crash_cases(dprog, wd, k1s=chk.pick([4, 7], [3, 4, 6, 7, 9]), k2s=chk.pick([2, 4], [1, 2, 3, 4, 6]), order="fifo"):
+        items.append(("resumable(2,2,3,1)/two_stops/k=%d" % c["k"], dprog, (), [c], [["crash_after_tick", c["k"] // 1000],
+                                                                                   ["crash_after_tick_of_restarted_process", c["k"] % 1000]]))
+    # two runs in the server at the stop: one has just ended (its status write is missing), the other is mid-run
+    wd = chk.work / "c13_two"
+    wd.mkdir(parents=True, exist_ok=True)
+    tprog = sc.pipeline()
+    for ff in (True, False):
+        for c in sv.two_handler_restart_cases(tprog, wd, finished_first=ff):
+            items.append(("pipeline x2/%s first/%s run" % ("finished" if ff else "unfinished", c["role"]), tprog, (), [c],
+                          [["two_runs", "crash_after_final_tick_of", "h1" if ff else "h2"]]))
     chk.add(crash_points=len(items))
     eg.standard_run(chk, "C13", None, {"case"}, items=items, key_of=key_of, conform=False,
                     nontrivial=lambda tr: not tr[0]["prefix_ends_run"])
